@@ -164,5 +164,13 @@ theorem slash_callback_cuts_every_pending_entry_once (v : ValId) (f : Dec) (w w'
     w'.undelQueue = w.undelQueue.map (fun p => (p.1, p.2.map (slashedEntry v f w.time p.1.1))) ∧
     w'.undelIndex = w.undelIndex := beforeValidatorSlashed_queue_exact v f w w' hix h
 
+/-- scope on positions: the whole callback changes the SHARES of no position other than the destinations of the
+    still-pending redelegations out of `v` (`redelTargets`): positions reached from other sources, destinations of
+    matured entries and every unrelated position keep their shares exactly (proof: AllianceProofs/RedelSlashScope;
+    `KD`: records stored under their own key) -/
+theorem slash_callback_touches_only_pending_redelegation_destinations (v : ValId) (f : Dec) (w w' : World) (hk : KD w)
+    (h : step (.slash v f) w = (.ok (), w')) :
+    ∀ k, k ∉ redelTargets w v → delShares w' k = delShares w k := beforeValidatorSlashed_scoped v f w w' hk h
+
 end C07
 end Alliance
